@@ -9,3 +9,5 @@ def check(rep, tier):
     core_outgrads.run(rep, tier, only=("AO-dense",))
     rules_exact.run(rep, tier, rules_exact.CLAUSE_PROPS["C06"])
     rules_exact.run(rep, tier, ("X-value",), which="index")
+    from contracts import containers
+    containers.run_exact(rep, tier, clauses=('K-value',))
